@@ -12,7 +12,7 @@ def seeds():
         meta = json.load(open(d + "/meta.json"))
         props = sorted(set(re.findall(r"C\d\d", meta.get("breaks_property", "") or os.path.basename(d))))
         first = re.search(r"C\d\d", os.path.basename(d)).group(0)
-        props = [first] + [p for p in props if p != first]
+        props = ([first] + [p for p in props if p != first])[:3]
         out.append((os.path.basename(d), d, meta, props))
     return out
 
